@@ -255,7 +255,8 @@ Definition handle_completion (cf : config) (s : gstate) (key : string) : list (s
   let parent := key_parent key in
   map (fun k => (title_or_empty g k, "[...]"))
       (filter (fun k => match cf_prefix cf with Some p => starts_with p k | None => false end) keys)
-  ++ map (fun k => (title_or_empty g k, "[" +++ title_or_empty g k +++ "](" +++ to_rel_link_url k parent +++ ")")) keys.
+  (* extensions.rs:274-280 to_link: `ref_url(.., "")` - no configured extension, `.md` where the key ends in `.md` *)
+  ++ map (fun k => (title_or_empty g k, "[" +++ title_or_empty g k +++ "](" +++ ref_url (to_rel_link_url k parent) "" +++ ")")) keys.
 
 (* ---------- textDocument/codeAction, codeAction/resolve --------------------------------------------------- *)
 
